@@ -168,6 +168,9 @@ class NormScript:
             tc = tt[kk] + sg["frac"] * (tt[kk + 1] - tt[kk])
         if tc <= self.t0:
             tc = self.t0 + 0.5 * (hi - self.t0) if hi > self.t0 else None
+        if tc is not None and not (tc - self.t0 > 1e-12):
+            tc = None  # no room for a crossing (also keeps the script total when a broken SUT leaves the step)
+            sg["cross"] = False
         sg["tc"] = tc
         if tc is not None:
             ks = max(0, min(n_steps - 1, max(i for i in range(n_steps) if tt[i] <= tc + 1e-12) if tc >= tt[0] else 0))
